@@ -3,6 +3,21 @@ pkg = test package under harness/, level = evidence level, jobs[tier] = list of
 {part, shards, checks (rapid cases per shard), journal, timeout, scale}."""
 
 CHECKS = {
+    'C02': dict(pkg='c02', level='exploration',
+        technique='differential oracle: an independent JSON-RPC 2.0 member classifier (admissible-outcome sets) against a real Server in a synctest bubble; complete product of per-field variants enumerated, rapid-generated batches/mutations beyond it; liveness probe after every record',
+        level_text='Every combination of per-field variants of a request object (30240) is sent as a single record to a real server on a plain and a push-enabled configuration; replies (or their absence, decided at a sound quiescent point of the bubble), handler invocations and a follow-up probe call are compared with a reference classifier written from the spec. Batches, random near-valid JSON and byte mutations are searched beyond the product. Exploration; exhaustive for the product only.',
+        level_note='Trusts harness/ref/refrpc (appendix A of DESIGN.md) and the response validator; admissible sets (dont-care classes of DESIGN section 7) are not checked beyond well-formedness and survival.',
+        jobs=dict(
+        quick=[
+            dict(part='product', shards=8, journal=True, timeout=300),
+            dict(part='batch', shards=3, checks=1200, journal=True),
+            dict(part='random', shards=3, checks=1500, journal=True),
+        ],
+        thorough=[
+            dict(part='product', shards=14, journal=True, timeout=1800),
+            dict(part='batch', shards=7, checks=40000, journal=True, timeout=3000),
+            dict(part='random', shards=7, checks=60000, journal=True, timeout=3000),
+        ])),
     'C11': dict(pkg='c11', level='exploration',
         technique='round-trip oracle (library Send -> byte stream -> chunk-controlled reader -> Recv) over rapid-generated record sequences and fragmentations, with every cut set enumerated for short streams',
         level_text='Records are sent pipelined with the library Send of each framing and read back through a reader whose read boundaries are generated (all cut sets for short streams, all one/two-cut fragmentations of header streams, 1-byte reads, bounded reads, data+EOF); results must equal the sent records byte for byte, then io.EOF three times. Exploration, exhaustive only for the stated finite sub-spaces.',
